@@ -814,7 +814,121 @@ def run(ctx):
     if ctx.prop == "C06" and not getattr(ctx, "_sharing", False):
         from .common import share
         share(ctx, "C07", ("R07.6", "R07.9"), "R06.10", "forwarding / width obligations shared with C07", 4)
+    _noexcept_elements(ctx)
     ctx.assume("element-type behaviour (throwing copies/moves) is covered only through R06.5/R06.6's ordering argument")
+
+
+_NOTHROW_STD = ("move", "forward", "addressof", "min", "max", "distance", "next", "prev", "get")
+
+
+def _nothrow_type(ctx, t):
+    t = (t or "").replace("const ", "").strip()
+    while t.endswith("&"):
+        t = t[:-1].strip()
+    if t.endswith("*") or t.startswith(("std::unique_ptr<", "unique_ptr<")):
+        return True
+    if re.fullmatch(r"(nitro::lang::fixed_vector::)?(size_type|difference_type|pointer|const_pointer|iterator|const_iterator)", t):
+        return True
+    return re.fullmatch(r"(unsigned |signed )?(int|long|long long|short|char|bool)|std::size_t|size_t|std::ptrdiff_t|ptrdiff_t", t) is not None
+
+
+def _lhs_type(ctx, f, n):
+    """declared type of the object an assignment / swap / exchange writes, None when it is element storage"""
+    n = ir.unwrap(n) if hasattr(ir, "unwrap") else n
+    if not isinstance(n, dict):
+        return None
+    if n.get("k") == "member":
+        fld = short(n.get("field") or "")
+        for c in (ctx.prog.classes.get(FV) or {}).get("fields", []):
+            if c["name"] == fld:
+                return c["type"]
+        return None
+    if n.get("k") == "ref":
+        return n.get("type")
+    return None
+
+
+def _element_throwers(ctx, f, depth=0, seen=None):
+    """[(node, why)]: what a member of fixed_vector does that an element type or the allocator may answer with an exception"""
+    seen = seen if seen is not None else set()
+    if f.id in seen or depth > 4:
+        return []
+    seen.add(f.id)
+    out = []
+    for bid, i, e in f.all_elems():
+        x = e.get("expr")
+        if not isinstance(x, dict) and not isinstance(x, list):
+            continue
+        if e["kind"] == "init" and e.get("field"):
+            pass
+        for n in walk(x, into_sc=True):
+            k = n.get("k")
+            if k == "bin" and n.get("op") in ("=", "+=", "-=") and n.get("type") == "<dependent type>":
+                if not _nothrow_type(ctx, _lhs_type(ctx, f, n["l"])):
+                    out.append((n, "assigns an element (`%s`): the element type's assignment may throw" % fmt(n)[:60]))
+            elif k == "throw":
+                out.append((n, "throws"))
+            elif k == "new":
+                out.append((n, "allocates (`%s`)" % fmt(n)[:40]))
+            elif k == "decl":
+                for v in n.get("vars", []):
+                    t = (v.get("type") or "")
+                    if re.match(r"(nitro::lang::)?fixed_vector\b", t.replace("const ", "")) and not t.rstrip().endswith(("&", "*")):
+                        ini = v.get("init")
+                        els = ini.get("elems") if isinstance(ini, dict) and ini.get("k") == "paren_list" else None
+                        moved = els is not None and len(els) == 1 and isinstance(els[0], dict) and els[0].get("k") == "call" and els[0].get("name") == "std::move"
+                        if moved:
+                            mc = [g for g in ctx.prog.methods_of(FV) if g.has_cfg and g.is_pattern and g.flags.get("move_ctor")]
+                            for g in mc:
+                                out += [(n, "%s -> %s" % ("move construction", w)) for (_, w) in _element_throwers(ctx, g, depth + 1, seen)]
+                        else:
+                            out.append((n, "constructs a container (`%s`): allocates and copies elements" % fmt(n)[:60]))
+            elif k == "call":
+                nm = n.get("name") or ""
+                sn = short(nm)
+                if n.get("noreturn") or sn == "raise":
+                    out.append((n, "raises (`%s`)" % fmt(n)[:50]))
+                    continue
+                if nm.startswith("std::"):
+                    if sn in _NOTHROW_STD and not (sn == "move" and len(n.get("args", [])) > 1):
+                        continue
+                    if sn in ("swap", "exchange") and n.get("args") and _nothrow_type(ctx, _lhs_type(ctx, f, n["args"][0])):
+                        continue
+                    if n.get("dep") or sn in ("make_unique", "copy", "move", "swap", "exchange", "fill", "copy_n", "move_backward", "copy_backward", "swap_ranges", "rotate"):
+                        out.append((n, "`%s` works on elements or allocates" % fmt(n)[:50]))
+                    continue
+                if n.get("callee"):
+                    g = ctx.prog.fn(n["callee"])
+                    if g is not None and g.has_cfg and g.file.startswith("/repo/"):
+                        out += [(n, "%s -> %s" % (short(g.qual), w)) for (_, w) in _element_throwers(ctx, g, depth + 1, seen)]
+                    continue
+                if n.get("dep") and (n.get("this") is None or is_this(n.get("this"))):
+                    sibs = [g for g in ctx.prog.methods_of(FV) if g.has_cfg and g.is_pattern and g.name == sn and g.id != f.id and len(g.params) == len(n.get("args", []))]
+                    for g in sibs:
+                        out += [(n, "%s -> %s" % (_sig(g), w)) for (_, w) in _element_throwers(ctx, g, depth + 1, seen)]
+    return out
+
+
+def _noexcept_elements(ctx):
+    ctx.rule("R06.11", "a member of fixed_vector declared noexcept performs nothing an element type or the allocator may answer with an exception (element assignment, "
+                       "container construction other than by move, allocation, raise): the exception of a failed operation has to reach the caller, not std::terminate")
+    n = 0
+    scanned = 0
+    seen = set()
+    for f in sorted(ctx.prog.methods_of(FV), key=lambda g: g.id):
+        if not f.has_cfg or not f.is_pattern or (f.file, f.line) in seen:
+            continue
+        seen.add((f.file, f.line))
+        scanned += 1
+        if not f.flags.get("noexcept"):
+            continue
+        n += 1
+        th = _element_throwers(ctx, f)
+        if th:
+            ctx.bad("R06.11", f, "noexcept-element-op:%s" % _sig(f), "%s is noexcept but %s" % (_sig(f), th[0][1]), (f, th[0][0].get("ln")))
+        else:
+            ctx.ok("R06.11", f, "noexcept-element-op:%s" % _sig(f), "nothing that may throw", f)
+    ctx.need("R06.11", "members of fixed_vector scanned (%d of them noexcept)" % n, scanned, 40)
 
 
 def _writes_size(ctx, f, depth):
